@@ -242,6 +242,7 @@ class PeerCase:
             except (socket.timeout, OSError):
                 return
             sock.setsockopt(socket.IPPROTO_TCP, socket.TCP_NODELAY, 1)
+            sock.setsockopt(socket.SOL_SOCKET, socket.SO_OOBINLINE, 1)      # urgent data is data: it is seen like the rest
             slog["connected"] = True
             slog["client_addr"] = sock.getpeername()[0]
             ch = Chan(sock, slog)
@@ -279,6 +280,18 @@ class PeerCase:
                 self._react(st, r, line)
                 if r.get("starttls"):
                     slog["raw_mark"] = len(ch.raw_in)
+                    if r.get("tls_reset"):
+                        # the connection is reset right behind the positive answer: the client finds it dead when it comes
+                        # to switch the socket over to TLS
+                        slog["ctl_handshake"] = False
+                        self._save_raw(st)
+                        self._drop_data(st)
+                        try:
+                            ch.sock.setsockopt(socket.SOL_SOCKET, socket.SO_LINGER, struct.pack("ii", 1, 0))
+                            ch.sock.close()
+                        except OSError:
+                            pass
+                        return
                     ok = ch.start_tls(ctx) if r.get("tls_ok", True) else self._bad_handshake(ch)
                     slog["raw_first_after_auth"] = bytes(ch.raw_in[slog["raw_mark"]:slog["raw_mark"] + 8])
                     slog["ctl_handshake"] = ok
@@ -336,6 +349,21 @@ class PeerCase:
     def _save_raw(self, st):
         ch = st["ch"]
         st["slog"]["raw_in"] = bytes(ch.raw_in[:65536])
+        # everything that follows the positive answer to AUTH TLS must be a sequence of TLS records
+        mark = st["slog"].get("raw_mark")
+        if mark is not None and st["slog"].get("ctl_handshake"):
+            raw = bytes(ch.raw_in[mark:])
+            k, n = 0, 0
+            bad = None
+            while k + 5 <= len(raw):
+                typ, ver, ln = raw[k], raw[k + 1:k + 3], int.from_bytes(raw[k + 3:k + 5], "big")
+                if typ not in (20, 21, 22, 23) or ver[0] != 3 or ver[1] > 4 or ln > 16384 + 2048:
+                    bad = dict(offset=k, records_before=n, bytes=raw[k:k + 16])
+                    break
+                k += 5 + ln
+                n += 1
+            st["slog"]["tls_records"] = n
+            st["slog"]["non_tls_bytes"] = bad
 
     def _close_ctl(self, st):
         self._save_raw(st)
@@ -455,6 +483,22 @@ class PeerCase:
             except (socket.timeout, OSError) as e:
                 slog["errors"].append("reset_first: %r" % (e,))
             time.sleep(0.05)             # let the RST reach the client before the reply does
+            data = None
+        elif data and data.get("reset_first") and st["active_ep"] is not None and data.get("mode") == "active":
+            # the same in the active modes: the server opens the data connection and resets it at once, then answers
+            try:
+                ep = st["active_ep"]
+                ds = socket.socket(socket.AF_INET6 if ":" in ep[0] else socket.AF_INET, socket.SOCK_STREAM)
+                ds.settimeout(2.0)
+                ds.bind((slog["addr"], 0))
+                ds.connect(ep)
+                ds.setsockopt(socket.SOL_SOCKET, socket.SO_LINGER, struct.pack("ii", 1, 0))
+                ds.close()
+                slog["data"].append(dict(kind="hold", ri=st.get("ri", -1), bytes=b"", arrived=True, tls=None, reused=None,
+                                         eof="reset-by-peer-before-reply", first_raw=b"", connected_to=ep))
+            except (socket.timeout, OSError) as e:
+                slog["errors"].append("reset_first: %r" % (e,))
+            time.sleep(0.05)
             data = None
         self._write_items(st, early, r.get("pace"))
         if data:
